@@ -80,7 +80,14 @@ def _classify(case, ctx, m, k):
 def image_case(draw):
     c = draw(setup())
     h, w = len(c["mask"]), len(c["mask"][0])
-    c["native"] = draw(gens.real_list(h * w, -10, 10))
+    if draw(st.integers(0, 3)) == 0:
+        # small whole numbers: sums of the image / blurring image cancel exactly in many cases ("empty input" shortcuts)
+        c["native"] = [float(v) for v in draw(st.lists(st.integers(-2, 2), min_size=h * w, max_size=h * w))]
+        c["values_kind"] = "small-integers"
+        c["cancel"] = draw(st.sampled_from(["none", "blurring", "image", "both"]))
+    else:
+        c["native"] = draw(gens.real_list(h * w, -10, 10))
+        c["values_kind"] = "reals"
     c["garbage"] = draw(gens.real_list(h * w, -100, 100))
     return c
 
@@ -90,8 +97,21 @@ def body_image(case, ctx):
     ctx.nt(_classify(case, ctx, m, k))
     a_mask, a_blur, blur = refconv.operators(m, k)
     native = np.asarray(case["native"], dtype=float).reshape(m.shape)
+    # explicit class: non-zero blurring image / image whose entries cancel exactly in their sum
+    cancel = case.get("cancel", "none")
+    if cancel in ("blurring", "both") and blur.sum() >= 2 and native[blur].any():
+        idx = np.argwhere(blur)[-1]
+        native[idx[0], idx[1]] -= native[blur].sum()
+    if cancel in ("image", "both") and (~m).sum() >= 2 and native[~m].any():
+        idx = np.argwhere(~m)[-1]
+        native[idx[0], idx[1]] -= native[~m].sum()
     img = native[~m]
     bimg = native[blur]
+    ctx.label("values:%s" % case.get("values_kind", "reals"))
+    if bimg.size and bimg.any() and float(bimg.sum()) == 0.0:
+        ctx.label("blurring-image:sums-to-zero")
+    if img.size and img.any() and float(img.sum()) == 0.0:
+        ctx.label("image:sums-to-zero")
     want = a_mask @ img + a_blur @ bimg
     tol = _tol(k, native)
     # cross-check of the reference itself against scipy on the combined native image
